@@ -15,4 +15,14 @@ theorem rateAlways_eq (r : Q) : rateAlways r = r.geOne := by
 theorem drawKeeps_eq (d r : Q) : drawKeeps d r = d.le r := by
   simp [drawKeeps, Q.cmp, PlaybackModel.Source.drawKeepCmp, Cmp.int, Q.le]
 
+/-- `ratio >= 1` / `self._random.random() <= ratio` in `S3TapeCassette._should_sample`, as they stand in the source -/
+theorem s3ShouldSample_eq (ratio : Option Q) (d : Q) :
+    s3ShouldSample ratio d = (match ratio with
+      | none => true
+      | some r => r.geOne || d.le r) := by
+  cases ratio with
+  | none => rfl
+  | some r =>
+    simp [s3ShouldSample, Q.cmp, PlaybackModel.Source.s3RateAlwaysCmp, PlaybackModel.Source.s3DrawKeepCmp, Cmp.int, Q.geOne, Q.le]
+
 end PlaybackModel.Recorder
